@@ -9,6 +9,7 @@ package main
 
 import (
 	"fmt"
+	"runtime"
 	"strconv"
 	"strings"
 	"sync"
@@ -16,6 +17,8 @@ import (
 	"time"
 
 	lunar_context "lunar/engine/streams/lunar-context"
+
+	"lunar/toolkit-core/concurrentmap"
 
 	"verif/harness/internal/detclock"
 	"verif/harness/internal/prng"
@@ -67,6 +70,10 @@ func execStress(c proto.Case, o *proto.Out) []string {
 				worst = int(okCount)
 			}
 		}
+		if w[0] == "stress-get-or-create" {
+			outs[i] = stressGetOrCreate(workers, rounds, o)
+			continue
+		}
 		if w[0] != "stress-sadd" && w[0] != "stress-incwindow" {
 			outs[i] = "bad-op"
 		} else if worst > max {
@@ -81,6 +88,41 @@ func execStress(c proto.Case, o *proto.Out) []string {
 	return outs
 }
 
+// stressGetOrCreate: N goroutines race to create the entry of one key in a real toolkit-core ConcurrentMap
+// (the per-endpoint limiter of concurrency-based throttling is created this way); every one-at-a-time
+// order hands ALL of them the value stored by the first, so two callers leaving with different values
+// have no serial explanation.
+func stressGetOrCreate(workers, rounds int, o *proto.Out) string {
+	if runtime.GOMAXPROCS(0) < 4 {
+		defer runtime.GOMAXPROCS(runtime.GOMAXPROCS(4))
+	}
+	for r := 0; r < rounds; r++ {
+		m := concurrentmap.NewConcurrentMap[string, int]()
+		got := make([]int, workers)
+		var wg sync.WaitGroup
+		var ready int64
+		for g := 0; g < workers; g++ {
+			wg.Add(1)
+			go func(g int) {
+				defer wg.Done()
+				atomic.AddInt64(&ready, 1)
+				for atomic.LoadInt64(&ready) < int64(workers) { // spin barrier
+				}
+				got[g] = m.LookupOrAssign("k", g+1)
+			}(g)
+		}
+		wg.Wait()
+		for g := 1; g < workers; g++ {
+			if got[g] != got[0] {
+				o.Count("stress-exceeded")
+				return fmt.Sprintf("split:round=%d", r)
+			}
+		}
+	}
+	o.Count("stress-ok")
+	return "ok"
+}
+
 func genStress(r *prng.R, f proto.Flags, emit func(proto.Case)) {
 	rounds := 150 * f.Budget
 	if f.Tier == "thorough" {
@@ -90,4 +132,5 @@ func genStress(r *prng.R, f proto.Flags, emit func(proto.Case)) {
 		emit(proto.Case{ID: fmt.Sprintf("stress:sadd-max%d", max), Ops: []string{fmt.Sprintf("stress-sadd max=%d workers=8 rounds=%d", max, rounds)}})
 		emit(proto.Case{ID: fmt.Sprintf("stress:incwindow-max%d", max), Ops: []string{fmt.Sprintf("stress-incwindow max=%d workers=8 rounds=%d", max, rounds)}})
 	}
+	emit(proto.Case{ID: "stress:get-or-create", Ops: []string{fmt.Sprintf("stress-get-or-create workers=6 rounds=%d", 20*rounds)}})
 }
